@@ -4,7 +4,7 @@ package genbank
 
 // C03: GenBank write-then-read is the identity and writing is deterministic.
 //
-// verif:bound C03 structured records: locus name 4 symbolic characters, sequence of 3, 12 or 61 symbolic letters, linear/circular/neither, metadata fields one symbolic word each (DEFINITION optionally ~90 characters long, forcing the writer to wrap), 0..2 references with and without REMARK, the second one sparse (a single optional field present), 0..2 extra keyword blocks, 0..2 features with 0..2 (quick) / 0..3 (thorough; 0..2 in the determinism clause) qualifiers (values 2 symbolic bytes over letters, digits and inner space, or empty), location cached as text or assembled as a structure, including one-base spans with partial markers; the last word before the DEFINITION wrap point is 2 symbolic printable characters
+// verif:bound C03 structured records: locus name 4 symbolic characters, sequence of 3, 12 or 61 symbolic letters, linear/circular/neither, metadata fields one symbolic word each (DEFINITION optionally ~90 characters long, forcing the writer to wrap), 0..2 references with and without REMARK, the second one sparse (a single optional field present), 0..2 extra keyword blocks, 0..2 features with 0..2 (quick) / 0..3 (thorough; 0..2 in the determinism clause) qualifiers (values 2 symbolic bytes over letters, digits and inner space, the first qualifier of the first feature also over \" / = , ( ); or empty), location cached as text or assembled as a structure, including one-base spans with partial markers; the last word before the DEFINITION wrap point is 2 symbolic printable characters
 // verif:bound C03 determinism: every iteration order of the qualifier maps and of the extra-keyword map is explored for two independent writes (exact for maps of <= 3 entries); natively the writes are repeated 50 times
 // verif:bound C03 parser-image clause: Parse(Build(Parse(t))) = Parse(t) for the C01 selftest record
 // verif:bound C03 outside the claim: sequences of 10^5 letters, 40 features, 8 qualifiers, metadata of 2000 characters, Write/Read file wrappers; the 'independent reader' is the layout checks of this harness (column facts), not a second full parser
@@ -17,8 +17,15 @@ import (
 
 const c03Val = "abcdefghijklmnopqrstuvwxyzABCDEFGHIJKLMNOPQRSTUVWXYZ0123456789 "
 
-func c03Value() string {
-	v := vBytes(2, c03Val)
+// the first qualifier of the first feature may also hold the characters of the qualifier syntax itself
+const c03ValWide = c03Val + "\"/=,()"
+
+func c03Value(wide bool) string {
+	alpha := c03Val
+	if wide {
+		alpha = c03ValWide
+	}
+	v := vBytes(2, alpha)
 	vAssume(vAnd(v[0] != ' ', v[1] != ' '))
 	return v
 }
@@ -121,7 +128,7 @@ func c03Record(maxQ int) poly.Sequence {
 		}
 		keys := []string{"gene", "note", "product"}
 		for q := 0; q < nq; q++ {
-			f.Attributes[keys[q]] = c03Value()
+			f.Attributes[keys[q]] = c03Value(i == 0 && q == 0)
 		}
 		if nq >= 1 && prof%3 == 0 {
 			f.Attributes[keys[0]] = "" // a qualifier with an empty value
